@@ -32,7 +32,9 @@ TraceInit ==
   /\ l = 1 /\ f04 = "" /\ f12 = ""
   /\ cap = Traces[tid].init.cap
   /\ free = ToRuns(Traces[tid].init.runs)
-  /\ live = {} /\ lost = {} /\ data = [x \in {} |-> 0]
+  /\ live = ToLive(Traces[tid].init.live)
+  /\ data = DataOf(Traces[tid].init.data)
+  /\ lost = (0 .. (Traces[tid].init.cap - 1)) \ (Bytes(ToRuns(Traces[tid].init.runs)) \cup UNION {Run(r) : r \in ToLive(Traces[tid].init.live)})
 
 (* observation -> primed variables *)
 Bind(e) ==
